@@ -2652,6 +2652,7 @@ func (p *parser) parseLambdaExpr(allowTuple, allowCmd, allowRangeExpr bool) (x a
 		var rhs []ast.Expr
 		var body *ast.BlockStmt
 		var lhsHasParen, rhsHasParen bool
+		var last token.Pos // end of the lambda's last token
 		p.next()
 		switch p.tok {
 		case token.LPAREN: // (
@@ -2665,7 +2666,7 @@ func (p *parser) parseLambdaExpr(allowTuple, allowCmd, allowRangeExpr bool) (x a
 				}
 				p.next()
 			}
-			p.expect(token.RPAREN)
+			last = p.expect(token.RPAREN) + 1
 		case token.LBRACE: // {
 			// like a function literal, the block has its own labels
 			p.openLabelScope()
@@ -2673,6 +2674,7 @@ func (p *parser) parseLambdaExpr(allowTuple, allowCmd, allowRangeExpr bool) (x a
 			p.closeLabelScope()
 		default:
 			rhs = []ast.Expr{p.parseExpr(false, false, false)}
+			last = rhs[0].End()
 		}
 		var lhs []*ast.Ident
 		if x != nil {
@@ -2714,7 +2716,7 @@ func (p *parser) parseLambdaExpr(allowTuple, allowCmd, allowRangeExpr bool) (x a
 		}
 		return &ast.LambdaExpr{
 			First:       first,
-			Last:        p.pos,
+			Last:        last,
 			Lhs:         lhs,
 			Rarrow:      rarrow,
 			Rhs:         rhs,
